@@ -79,7 +79,11 @@ pub fn parse_duration(input: &str) -> Result<u64> {
         }
     };
 
-    Ok(value * multiplier)
+    value.checked_mul(multiplier).ok_or_else(|| {
+        SlocGuardError::Config(format!(
+            "Invalid duration number: '{num_str}'. Duration is too large"
+        ))
+    })
 }
 
 #[cfg(test)]
